@@ -59,13 +59,14 @@ impl Store {
             Ok(p) => {
                 // println!("process model={}", p.model);
                 let model = Workflow::from_json(&p.model)?;
-                let proc = scheduler::Process::new(pid, rt);
+                let proc = scheduler::Process::new_with_timestamp(pid, p.timestamp, rt);
                 let env_local: serde_json::Value =
                     serde_json::from_str(&p.env).map_err(|err| ActError::Store(err.to_string()))?;
 
                 proc.load(&model)?;
                 proc.set_pure_state(p.state.into());
                 proc.set_start_time(p.start_time);
+                proc.set_end_time(p.end_time);
                 proc.set_env(&env_local.into());
                 self.load_tasks(&proc, rt)?;
                 if let Some(err) = p.err {
